@@ -1,13 +1,13 @@
 package props
 
 import (
-	"strings"
 	"bytes"
 	"encoding/binary"
 	"fmt"
 	"io"
 	"math"
 	"sort"
+	"strings"
 	"sync"
 	"testing"
 
